@@ -217,6 +217,13 @@ class Engine(ExprMixin, CallMixin, StmtMixin):
             self.slice_lines = (body[0].lineno, body[-1].end_lineno)
             self.assumptions.add("%s: only the slice lines %d-%d is verified; statements before it are havocked, after it ignored"
                                  % (c.name, body[0].lineno, body[-1].end_lineno))
+        is_gen = any(isinstance(n, ast.Yield) for n in ast.walk(fdef))
+        if is_gen:
+            rt = T.parse_type(c.returns)
+            if not isinstance(rt, T.TList):
+                raise Unsupported("a generator's contract must declare returns=list[...] (the yielded sequence)")
+            st.vars["_yield"] = zero_value(rt)
+            self.assumptions.add("%s is a generator: its result is read as the full sequence of yielded values" % c.name)
         outs = self.exec_block(body, st)
         npaths = 0
         for s2, sig in outs:
@@ -237,6 +244,8 @@ class Engine(ExprMixin, CallMixin, StmtMixin):
             if sig is not None and sig[0] in ("break", "continue"):
                 raise Unsupported("break/continue outside loop")
             res = sig[1] if sig is not None else VNone()
+            if is_gen:
+                res = s2.vars["_yield"]
             if c.returns not in (None, "none", "None") and isinstance(res, VOpt) and res.ity == T.parse_type(c.returns):
                 # declared non-optional: returning None here would be a type violation
                 self.obligations.append(Obligation(self.cur_name, "post", "type", s2.conds(), z3.Not(res.isnone),
